@@ -97,6 +97,9 @@ func runCell(base string, c Cell) *Result {
 	hostTmp := filepath.Join(c.Dir, "host-tmp")
 	os.MkdirAll(hostTmp, 0o755)
 	c.VPlugin = filepath.Join(base, "vplugin")
+	if os.Getenv("VERIF_OLD_TOOLCHAIN") != "" { // this binary and its plugins were built with the repository's own toolchain
+		c.VPlugin = filepath.Join(base, "old", "vplugin")
+	}
 	if c.Plugin.ExitMarker == "auto" {
 		c.Plugin.ExitMarker = filepath.Join(c.Dir, "exit-marker")
 	}
